@@ -29,6 +29,7 @@ import Drivers.Ugrid
 import Drivers.GatherMeshb
 import Drivers.Repro
 import Drivers.Mixed
+import Drivers.ReconPar
 
 /-! `refdrv <driver> [args]` : dispatch to a line-protocol driver. One match arm per driver, on one line. -/
 
@@ -63,6 +64,7 @@ def main (args : List String) : IO UInt32 := do
   | "gathermeshb" :: rest => Drivers.GatherMeshb.run rest
   | "repro" :: rest => Drivers.Repro.run rest
   | "mixed" :: rest => Drivers.Mixed.run rest
+  | "reconpar" :: rest => Drivers.ReconPar.run rest
   | _ =>
     IO.eprintln s!"refdrv: unknown driver {args}"
     return 2
